@@ -3,6 +3,7 @@ package props
 import (
 	"fmt"
 	"image"
+	"image/color"
 	"math"
 
 	"github.com/reactivego/ivg"
@@ -225,6 +226,31 @@ func c06Arc(c *run.Ctx, idx uint64) {
 	default:
 		z.SetRasterizer(rz, rect)
 		z.Reset(vb, ivg.DefaultPalette)
+	}
+	if mode != viaBytes && r.Chance(1, 6) {
+		// The path before this one was not painted (outside the level-of-detail
+		// range, or a fully transparent fill) and held arcs of both kinds: whatever
+		// the Renderer noted for them must not reach the judged arc.
+		c.Count("after_an_unpainted_path_with_arcs", 1)
+		if r.Bool() {
+			z.SetLOD(9000, 9001)
+		} else {
+			z.SetCSel(9)
+			z.SetCReg(0, false, ivg.RGBAColor(color.RGBA{}))
+		}
+		z.StartPath(0, vb.MinX, vb.MinY)
+		z.RelArcTo(3, 2, 0.1, true, false, 4, 5)
+		if r.Bool() {
+			z.AbsArcTo(2, 3, 0.2, false, true, vb.MaxX, vb.MaxY)
+			z.RelArcTo(1, 1, 0, false, false, -2, 1)
+		}
+		z.ClosePathEndPath()
+		z.SetLOD(0, float32(math.Inf(1)))
+		z.SetCSel(0)
+		if rz.NMut != 0 {
+			c.Violate("activity-for-an-unpainted-path", map[string]interface{}{"calls": rec.RStrings(clipR(rz.Calls, 6))})
+			return
+		}
 	}
 	// what precedes the judged arc inside its path
 	pre := []rec.Op{{K: rec.KStartPath, F: [6]float32{x0, y0}}}
